@@ -27,13 +27,14 @@ func isBoolLocal(f *Func, id *ast.Ident) bool {
 
 func init() {
 	register(&Property{ID: "C13", Run: runC13,
-		Explain: "Per-peer state reclamation decided as an inventory with obligations: (R13.1) every struct field of the module that is a map keyed by peer.ID (directly or as the inner map of a map keyed by topic/message/IP) is enumerated from the type information on every run; each needs a reclaim site (delete of the key / of the inner entry, or replacement of the map) that is reachable in the VTA call graph from a departure root (handleDeadPeers, onClosedIncomingStream, the stream handler's deferred cleanup, the blacklist arm's callees), a periodic root (heartbeat, scorer/gater/backoff/time-cache background loops), a completion root (DeliverMessage/RejectMessage fan-out, for message-scoped maps) or its consumer (pending/queue-like maps); a new per-peer field without one fails; named exemptions: direct peers (operator configuration), blacklist state (policy); (R13.2) guard symmetry: the feature(...) guards required on every call path to a reclaimer are a subset of those on the paths to every creator of the same field (otherwise entries created for some protocol versions are never reclaimed); (R13.3) entries are created only for peers that can be reclaimed: the pending-control buffer is written only behind a successful lookup of the peer's queue, and mesh admission requires gs.peers membership (shared R07.5, known finding F8); (R13.4) protection pairing: every removal of a peer from a mesh map reaches tracer.Prune or tagTracer.untagMeshPeer for that topic (connection-manager protection released), the tag tracer's Graft/Prune map to Protect/Unprotect with the same tag; (R13.5) stream bookkeeping: the stream handler's deferred cleanup removes its inboundStreams entry when it is the current one and reports the closed stream iff it reported the new one; the extension state's closed-stream handlers delete their entries; router/scorer/gater departure handlers (shared R07.5, R10.4, R05.6) remove the peer. NOT decided: that retention periods elapse and sweeps run (timing); entries re-created by late validation callbacks after departure.",
+		Explain: "Per-peer state reclamation decided as an inventory with obligations: (R13.1) every struct field of the module that is a map keyed by peer.ID (directly or as the inner map of a map keyed by topic/message/IP) is enumerated from the type information on every run; each needs a reclaim site (delete of the key / of the inner entry, or replacement of the map) that is reachable in the VTA call graph from a departure root (handleDeadPeers, onClosedIncomingStream, the stream handler's deferred cleanup, the blacklist arm's callees), a periodic root (heartbeat, scorer/gater/backoff/time-cache background loops), a completion root (DeliverMessage/RejectMessage fan-out, for message-scoped maps) or its consumer (pending/queue-like maps); a new per-peer field without one fails; named exemptions: direct peers (operator configuration), blacklist state (policy); (R13.2) guard symmetry: the feature(...) guards required on every call path to a reclaimer are a subset of those on the paths to every creator of the same field (otherwise entries created for some protocol versions are never reclaimed); (R13.3) entries are created only for peers that can be reclaimed: the pending-control buffer is written only behind a successful lookup of the peer's queue, and mesh admission requires gs.peers membership (shared R07.5, known finding F8); (R13.4) protection pairing: every removal of a peer from a mesh map reaches tracer.Prune or tagTracer.untagMeshPeer for that topic (connection-manager protection released), the tag tracer's Graft/Prune map to Protect/Unprotect with the same tag; (R13.5) stream bookkeeping: the stream handler's deferred cleanup removes its inboundStreams entry when it is the current one and reports the closed stream iff it reported the new one; the extension state's closed-stream handlers delete their entries; router/scorer/gater departure handlers (shared R07.5, R10.4, R05.6) remove the peer; (R13.6) the gater deletes a peer's entry whenever its outbound stream closed, independently of the connection count it shares with other peers behind the same IP. NOT decided: that retention periods elapse and sweeps run (timing); entries re-created by late validation callbacks after departure.",
 		Assume:  []string{"VTA call graph over-approximates calls through stored function values", "roots are invoked by the event loop / their goroutines as analysed under C05/C14"},
 		Mutants: []Mutant{
 			{Name: "closed-stream-keeps-control-buffer", File: "gossipsub.go", Old: "\tdelete(gs.gossip, p)\n\tdelete(gs.control, p)\n\tdelete(gs.outbound, p)", New: "\tdelete(gs.gossip, p)\n\tdelete(gs.outbound, p)", Expect: "R13.5"},
-			{Name: "gater-stats-never-removed", File: "peer_gater.go", Old: "\tif st.connected == 0 {\n\t\tst.expire = time.Now().Add(pg.params.RetainStats)\n\t\tdelete(pg.peerStats, p)\n\t}", New: "\tif st.connected == 0 {\n\t\tst.expire = time.Now().Add(pg.params.RetainStats)\n\t}", Expect: "R13.1"},
+			{Name: "gater-stats-never-removed", File: "peer_gater.go", Old: "\tif outbound || st.connected == 0 {\n\t\tdelete(pg.peerStats, p)\n\t}", New: "\t_ = outbound", Expect: "R13.1"},
 			{Name: "extension-reclaim-feature-guarded", File: "gossipsub.go", Old: "\tgs.extensions.OnClosedIncomingStream(pid, proto)\n}", New: "\tif gs.feature(GossipSubFeatureExtensions, proto) {\n\t\tgs.extensions.OnClosedIncomingStream(pid, proto)\n\t}\n}", Expect: "R13.2"},
 			{Name: "drop-stashes-control-for-unknown-peer", File: "gossipsub.go", Old: "\tq, ok := gs.p.peers[p]\n\tif !ok {\n\t\treturn\n\t}\n\n\t// If we're below the max message size, go ahead and send", New: "\tq, ok := gs.p.peers[p]\n\tif !ok {\n\t\tgs.doDropRPC(out, p, \"no outbound queue\")\n\t\treturn\n\t}\n\n\t// If we're below the max message size, go ahead and send", Expect: "R13.3"},
+			{Name: "gater-delete-only-at-zero", File: "peer_gater.go", Old: "\tif outbound || st.connected == 0 {\n\t\tdelete(pg.peerStats, p)", New: "\tif st.connected == 0 {\n\t\tdelete(pg.peerStats, p)", Expect: "R13.6"},
 			{Name: "closed-stream-no-untag", File: "gossipsub.go", Old: "\t\t\tdelete(peers, p)\n\t\t\tgs.tagTracer.untagMeshPeer(p, topic)\n", New: "\t\t\tdelete(peers, p)\n\t\t\t_ = topic\n", Expect: "R13.4"},
 			{Name: "tagtracer-prune-protects", File: "tag_tracer.go", Old: "func (t *tagTracer) untagMeshPeer(p peer.ID, topic string) {\n\ttag := topicTag(topic)\n\tt.cmgr.Unprotect(p, tag)", New: "func (t *tagTracer) untagMeshPeer(p peer.ID, topic string) {\n\ttag := topic\n\tt.cmgr.Unprotect(p, tag)", Expect: "R13.4"},
 			{Name: "stream-cleanup-always-deletes", File: "comm.go", Old: "\t\tif p.inboundStreams[peer].s == s {\n\t\t\tdelete(p.inboundStreams, peer)\n\t\t}", New: "\t\tif p.inboundStreams[peer].s == s && sentNewStream {\n\t\t\tdelete(p.inboundStreams, peer)\n\t\t}", Expect: "R13.5"},
@@ -294,6 +295,30 @@ func runC13(c *RuleCtx) {
 			}
 		}
 	}
+	// ---------- R13.6 the gater's per-peer entry goes with the peer's outbound stream, whatever other peers do
+	// (its statistics are shared by all peers behind one IP; a reclaim that waits for the IP's connection count to
+	// reach zero never happens for a peer that leaves while another peer behind the same IP stays)
+	if f := c.MustFn("R13.6", "(*peerGater).removePeerStats"); f != nil {
+		g := p.Graph(f)
+		outbound := AtomBool("outbound stream closed", isParam(f, 1))
+		present := AtomBool("peer has gater statistics", func(v *V) bool {
+			return v != nil && v.Kind == "lookupok" && v.Args[0].IsField("peerGater.peerStats")
+		})
+		cut := g.CutAny(AtomWant{outbound, false}, AtomWant{present, false})
+		ok, bad := g.MustPass(g.Entry(), PassOpts{Cut: cut}, func(n ast.Node) bool { return isDeleteOf(p, f, n, "peerGater.peerStats") })
+		where := ""
+		if bad != nil && len(bad.Nodes) > 0 {
+			where = " (path ending at " + p.Pos(bad.Nodes[len(bad.Nodes)-1]) + ")"
+		}
+		c.Check(ok, "R13.6", f.Name, "peer entry deleted whenever its outbound stream closed", f.Decl, "every path that does not refute `outbound` (or finds no entry) deletes pg.peerStats[p]", "when the peer's outbound stream closes its gater entry can survive"+where+": the deletion depends on the connection count shared with other peers behind the same IP, so the entry of a peer that leaves first is never reclaimed")
+		callers := p.CallerNames(f.Name)
+		okc, extra := subset(callers, "(*peerGater).OnClosedOutboundStream", "(*peerGater).OnClosedIncomingStream")
+		c.Check(okc && len(callers) == 2, "R13.6", f.Name, "called for both stream directions", nil, strings.Join(callers, ","), "callers: "+strings.Join(callers, ",")+" "+strings.Join(extra, ","))
+		for _, cs := range p.Sites(p.Funcs["(*peerGater).OnClosedOutboundStream"], false, f.Name) {
+			c.Check(p.R(cs.Fn).Val(cs.Call.Args[1]).IsConst("true"), "R13.6", "(*peerGater).OnClosedOutboundStream", "reports an outbound close", cs.Call, "removePeerStats(p, true)", "the outbound-close handler does not pass outbound=true")
+		}
+	}
+	c.Min["R13.6"] = 3
 	// ---------- R13.5 stream bookkeeping
 	if f := c.MustFn("R13.5", "(*PubSub).handleNewStream"); f != nil {
 		var deferred *Func
